@@ -206,6 +206,8 @@ def phases(g="g", r="r", l=None, basis="ground-rydberg", eom=True):
         ("add", C52, r),
         ("add", C52S, r),
         ("add", C52N, r, "wait-for-all"),
+        ("add", ["A", ["C", 52, 1.0], ["C", 52, 0.4], 0.9], g),  # ArbitraryPhase with a constant phase waveform and a post-phase-shift
+        ("add", ["A", ["C", 40, 1.0], ["R", 40, 0.0, 1.0], -0.6], r),  # ... with a phase ramp
         ("target", "q1", r),
         ("target", "q0", r),
         ("target", ["q0", "q1"], r),
